@@ -122,6 +122,26 @@ FIRST = {
  'C18i': ('missed', 'match_qclass returns false for records whose RDATA is the typed OPT variant; typed OPT records (built and parsed) added to the match matrix'),
  'C19i': ('not reported', 'long_attributes treats two keys with the same 64-bit SipHash fingerprint as duplicates; the agent found a colliding pair with 10^9 hash evaluations. No bounded enumeration of inputs reaches such a pair: this change is outside what the technique can see (section 4 of DESIGN.md)'),
  'C20i': ('missed', 'tokio discovery drops a goodbye received while its notification channel is full; a socket case with a capacity-1 channel read late (announce, announce, goodbye, then catch up) added'),
+ # round 10, adversarial, told everything incl. the round-9 additions (first encounter: commit 7efd932, both build profiles; seeded/_results/first_encounter_round10.txt)
+ 'C01j': ('missed', 'CAA parser slices a lossily decoded iodef value at a fixed byte index: panics when a multi-byte character straddles offset 7 / 8; tag x value family added (every dictionary word as CAA tag and TXT key, values with a multi-byte character or invalid byte at every offset 0..=24)'),
+ 'C02j': ('missed', 'a new validity check of the EDNS client-subnet option rejects prefixes that are not a multiple of 8; structured option payloads (family / prefix / address shapes for codes 0..=20) added to C02, C09, C01'),
+ 'C03j': ('missed', 'Name caches its wire length and Name::without computes it one byte short: RDLENGTH of records holding such a name is wrong in the plain writer; names obtained through 7 API paths (new, new_unchecked, try_from, parsed, without on built and parsed names, owned copies) x 6 name-bearing types added to C03 and C04'),
+ 'C04j': ('missed', 'same cached-length slip as C03j, judged as framing; same family'),
+ 'C05j': ('missed', 'cursor bookkeeping by position equality: a pointer whose target labels run across the pointer itself advances the shared cursor twice; near-pointer family (pointer to 1..=24 bytes before itself, with bytes behind the message) added'),
+ 'C06j': ('missed', 'Label::new_unchecked decodes presentation-format \\DDD escapes and the wire parser builds labels through it; labels whose content is a dictionary word or any string of length <= 4 over backslash / digits / dot / a added at hook level'),
+ 'C07j': ('missed', 'records covered by an RRSIG in the same message are written with uncompressed RDATA names; RRSIG next to the record set it covers (type_covered = the other type, same owner) added to the type-pair family'),
+ 'C08j': ('missed', 'Packet::into_reply rebuilt through new_reply loses the OPCODE; into_reply on every flags word added (id, OPCODE, QR in accessors and written bits)'),
+ 'C09j': ('missed', 'OPT options written with one write_vectored call, short counts misread: bytes duplicated on sinks with a native partial gathered write; Gather and Drip sinks added to C09 and C10'),
+ 'C10j': ('missed', 'IPSECKEY IPv6 gateway written with write instead of write_all: truncated on sinks that take fewer than 16 bytes per call; Drip / Gather sinks in C10'),
+ 'C12j': ('missed', 'Debug of an EDNS client-subnet option copies the address into a fixed-size buffer: panics for over-long addresses; structured option payloads reach C12 through the shared input families'),
+ 'C13j': ('missed (quick tier cannot see it)', 'a housekeeping pass in the refresh loops, at most once a minute, deletes the service\'s own records; needs > 60 s of real time: a 75 s background scenario was added to the THOROUGH tier of C13 (reported there); the quick tier, which finishes in under a minute, does not see it'),
+ 'C14j': ('missed', 'tokio refresh retry schedule underflows 10.5 s after a response from a peer that stays silent: the discovery task dies; 13 s background scenario (silent peer, then announce() and a new response) added to C14'),
+ 'C15j': ('missed', 'sync receive loop drops responses that carry a question section; hand-made responses in 5 shapes (echoed question, two questions, address in additional, non-zero id) sent to running sync and tokio watchers'),
+ 'C16j': ('missed', 'TYPE equality by numeric code with derived Hash: TYPE::Unknown(1) == TYPE::A but hashes differ; every code as named and as catch-all variant (bare, RData::Empty, record) added'),
+ 'C17j': ('missed', 'Name::new accepts a space in the first label of DNS-SD shaped names; dictionary names as text behind instance-like first labels added'),
+ 'C18j': ('missed', 'questions of responses parsed through a lenient conversion: unsupported QTYPEs accepted, ANY becomes Unknown(255); every QTYPE code x query / response x opcodes added'),
+ 'C19j': ('missed', 'attributes() appends strings without = to a preceding 255-byte key=value string; 250..=255-byte strings next to short strings in every order, and as map entries next to value-less keys'),
+ 'C20j': ('missed', 'a purge in the 5-second refresh poll re-inserts live cached records with a fresh lease; 10.4 s background scenario (TTL 2 and TTL 8 peers) added to C20'),
 }
 def load_jsonl(pattern):
     out = {}
@@ -157,7 +177,7 @@ for d in sorted(os.listdir(S)):
 with open(os.path.join(S, 'INDEX.md'), 'w') as f:
     f.write('| seed | property | change (agent summary, shortened) | caught by (quick tier) | first encounter |\n|---|---|---|---|---|\n')
     for m in rows:
-        cb = ', '.join(sorted((m['caught_by'] or {}).keys())) or 'n/a (not evaluated yet)'
+        cb = ', '.join(sorted((m['caught_by'] or {}).keys())) or ('none' if m.get('exit_codes') else 'n/a (not evaluated yet)')
         s = (m['summary'] or '').replace('|', '/')
         s = s[:170] + ('…' if len(s) > 170 else '')
         f.write(f"| {m['seed']} | {m['property']} | {s} | {cb} | {m['first_encounter']['result']} |\n")
